@@ -309,6 +309,9 @@ def _loop(rep, ex: Explorer):
 
     paths = ex.run(qual, setup, summaries=summ, key="mcsloop")
     n = 0
+    # (is the step that reads the falsified set off a model seen on any path at all?  If not, the loop obtains it in a way this
+    #  rule has no summary for and cannot judge the loop's tests)
+    step_seen = any(ev.kind == "viol" for p_ in paths for ev, Q in iter_events(p_.events))
     for p in paths:
         evs = [ev for ev, Q in iter_events(p.events)]
         expired = None
@@ -350,7 +353,7 @@ def _loop(rep, ex: Explorer):
                       extracted=f"loop back={back}, recorded={len(appends)}, blocked={len(adds)}", required="record ∅, stop", function=site)
         elif none_model is False and viol_empty is None and computes:
             others = [(k, v) for k, v in p.decisions if not (k[0] == "truthy" and isinstance(k[1], tuple) and k[1][:1] == ("mcall",)) and k[0] not in ("isnone", "truthy", "loopexit")]
-            if others and not any(e.kind == "viol" for e in evs):
+            if others and not step_seen:
                 raise AnalysisError(f"{site}: the enumeration does not obtain the falsified set through a step this rule knows (get_violated_conditional or what it delegates to)")
             if others:
                 rep.violation("MCS.loop", site, "termination test", "after a model was found the enumeration stops exactly when it falsifies nothing; every other found set is recorded, blocked and the search goes on",
